@@ -44,7 +44,7 @@ def catalogue(cfg):
     """Every (backend, fault) of the catalogue; cfg supplies the seeded free parameters (tie, mask)."""
     out = []
     for kind in API_KINDS:
-        if kind.startswith("status_"):
+        if kind.startswith("status_") or kind == "raise_after_optimal":
             for assign in API_ASSIGN:
                 out.append(("sim-api", {"kind": kind, "assign": assign}))
         else:
@@ -76,6 +76,8 @@ def gen_run(seed, tier, i):
     if i < plan["catalogue"]:
         if i % 4 == 3:
             st = structures.gen_many(s_struct, 10, 14)
+        elif i % 8 == 2:
+            st = structures.gen_broom(s_struct)
         else:
             st = structures.gen_structure(s_struct, max_stems=6, knotted_bias=1.0)
         steps = []
@@ -96,8 +98,11 @@ def gen_run(seed, tier, i):
     stop_after = s_cfg.choice([None, None, s_cfg.randint(0, nsteps)])
     reuse_structure = s_cfg.random() < 0.3
     def fresh_structure():
-        if s_struct.random() < 0.15:
+        x = s_struct.random()
+        if x < 0.12:
             return structures.gen_many(s_struct, 10, 14)
+        if x < 0.20:
+            return structures.gen_broom(s_struct)
         return structures.gen_structure(s_struct, max_stems=7, knotted_bias=0.75)
 
     pool = [fresh_structure() for _ in range(3)]
@@ -111,7 +116,7 @@ def gen_run(seed, tier, i):
         kinds = KINDS_OF[backend]
         kind = s_fault.choice(kinds[1:]) if (faulty and len(kinds) > 1) else "ok"
         fault = {"kind": kind, "tie": s_fault.randrange(64), "partial": s_fault.randrange(1 << 16)}
-        if kind.startswith("status_"):
+        if kind.startswith("status_") or kind == "raise_after_optimal":
             fault["assign"] = s_fault.choice(API_ASSIGN)
         step = {"triples": st["triples"], "op": op, "via": via, "backend": backend,
                 "fault": fault, "default": s_cfg.choice(["none", "sim-api"])}
@@ -284,4 +289,4 @@ REQUIRED_FIRED = ["api.ok", "api.raise_before", "api.raise_after_partial", "cbc.
                   "cbc.stopped_no_incumbent", "cbc.unknown_word", "highs.ok", "highs.exit_minus1",
                   "highs.infeasible", "highs.unbounded", "highs.timelimit_no_solution",
                   "highs.sol_unreadable", "real-cbc.ok"] + [
-    "api.%s.%s" % (k, a) for k in API_KINDS if k.startswith("status_") for a in API_ASSIGN]
+    "api.%s.%s" % (k, a) for k in API_KINDS if k.startswith("status_") or k == "raise_after_optimal" for a in API_ASSIGN]
